@@ -35,7 +35,11 @@ def random_cases(rng, n):
             for _ in range(m):
                 v += Fraction(rng.randint(-4, 4), 8) if smooth else Fraction(rng.randint(-40, 40), 8)
                 ys.append(v)
+            if rng.random() < 0.3:      # a series that ends with the value it starts with (one closed period; seed C16i: such
+                ys[-1] = ys[0]          # series got a periodic spline whose last value is the fit at the FIRST sample)
         s = rng.choice([0.0, 0.0, 10 ** rng.uniform(-4, 2)])
+        if not affine and ys[-1] == ys[0] and rng.random() < 0.6:
+            s = 10 ** rng.uniform(-2, 2)
         # the smoothing step is requested on a fresh object or after a short history of other operations
         pre = []
         for _ in range(rng.choice([0, 0, 1, 2, 3])):
